@@ -24,7 +24,14 @@ G_ALT = {"group": "g/ac", "members": [rs("t/a1", [["string", "a"]], ["'va'"]),
 F_BAD = dict(rs("t/f", [["string", "s"], ["record", "sub"]], ["chr(0xd800)", X]), xfail=True)
 F_OK = rs("t/f", [["string", "s"], ["record", "sub"]], ["'fine'", X])
 
-SHAPES = {"F_BAD": F_BAD, "F_OK": F_OK, "A": A, "A2": A2, "C": C, "BIG": BIG, "E": E, "N_A": N_A, "N_X": N_X, "G": G, "G_X": G_X, "G_ALT": G_ALT}
+# refused inside Record._pack() (a raw value appended in place to a typed list), i.e. before the packer returns
+F_BAD2 = dict(rs("t/f2", [["uint32[]", "xs"], ["string", "s"]], ["[1]", "'bad'"]), xfail=True, mutate=[["xs", "'not a number'"]])
+F_OK2 = rs("t/f2", [["uint32[]", "xs"], ["string", "s"]], ["[2]", "'fine'"])
+# two type names that differ only in '/' versus '_' (same Python-safe class name), identical field lists
+U1 = rs("u/v_w", [["string", "s"], ["varint", "n"]], ["'one'", "1"])
+U2 = rs("u/v/w", [["string", "s"], ["varint", "n"]], ["'two'", "2"])
+
+SHAPES = {"F_BAD2": F_BAD2, "F_OK2": F_OK2, "U1": U1, "U2": U2, "F_BAD": F_BAD, "F_OK": F_OK, "A": A, "A2": A2, "C": C, "BIG": BIG, "E": E, "N_A": N_A, "N_X": N_X, "G": G, "G_X": G_X, "G_ALT": G_ALT}
 
 
 def small(spec):
@@ -79,7 +86,7 @@ def cases(tier, seed):
     import itertools
 
     for k in range(1, L + 1):
-        pool = names if k <= 2 else (["A", "A2", "C", "N_A", "N_X", "G", "G_X", "G_ALT", "BIG", "F_BAD", "F_OK"] if k == 3 else ["A", "A2", "N_X", "G_X", "G", "G_ALT"])
+        pool = names if k <= 2 else (["A", "A2", "C", "N_A", "N_X", "G", "G_X", "G_ALT", "BIG", "F_BAD", "F_OK", "F_BAD2", "F_OK2", "U1", "U2"] if k == 3 else ["A", "A2", "N_X", "G_X", "G", "G_ALT"])
         for seq in itertools.product(pool, repeat=k):
             yield {"kind": "s4", "t": "seq", "shape": list(seq), "records": [SHAPES[n] for n in seq]}
     # S5 atoms wrapped as record / record[] / grouped member
